@@ -219,7 +219,10 @@ def run(ctx):
     # the comparison goes through hash_without_ep: it separates exactly the positions only if the position-state writers
     # keep hash and state in lock-step for every history (owned by C10; re-run here, a stale key makes same_position
     # answer false for identical positions)
-    from . import c10
+    from . import c10, c03
     expl = ctx.explanation
     c10.run(ctx)
+    # "a legal en-passant capture exists" is decided by is_legal from the stored checkers and pins: they must equal their
+    # definition for every history (owned by C03; re-run here)
+    c03.run(ctx)
     ctx.explanation = expl
